@@ -1121,20 +1121,36 @@ fn gen_dtx(seed: u64, count: usize, w: &mut NdjsonWriter) {
         .iter()
         .map(|n| with_version(sample(&mut runner, &t_orch::arb_bundle(*n)), orchard::bundle::BundleVersion::ironwood_v3()))
         .collect();
-    let mut tps = vec![];
-    while tps.len() < 3 {
+    // other bundles: inputs only, outputs only, both, and a present-but-empty transparent bundle
+    let tp_full = loop {
         if let Some(b) = sample(&mut runner, &zcash_transparent::bundle::testing::arb_bundle()) {
-            tps.push(b);
-        }
-    }
-    let mut saps = vec![];
-    for _ in 0..40 {
-        if saps.len() < 2 {
-            if let Some(b) = sample(&mut runner, &t_sap::arb_bundle()) {
-                saps.push(b);
+            if !b.vin.is_empty() && !b.vout.is_empty() {
+                break b;
             }
         }
-    }
+    };
+    let mut tps = vec![tp_full.clone(), tp_full.clone(), tp_full.clone(), tp_full];
+    tps[1].vout.clear();
+    tps[2].vin.clear();
+    tps[3].vin.clear();
+    tps[3].vout.clear();
+    let sap_full = loop {
+        if let Some(b) = sample(&mut runner, &t_sap::arb_bundle()) {
+            if !b.shielded_spends().is_empty() && !b.shielded_outputs().is_empty() {
+                break b;
+            }
+        }
+    };
+    let sap_part = |spends: bool, outputs: bool| {
+        sapling::Bundle::from_parts(
+            if spends { sap_full.shielded_spends().to_vec() } else { vec![] },
+            if outputs { sap_full.shielded_outputs().to_vec() } else { vec![] },
+            *sap_full.value_balance(),
+            sap_full.authorization().clone(),
+        )
+        .expect("non-empty sapling bundle")
+    };
+    let saps = vec![sap_part(true, true), sap_part(true, false), sap_part(false, true)];
     let note = |runner: &mut TestRunner, v: u64, ver| {
         sample(runner, &orchard::note::testing::arb_note(orchard::value::NoteValue::from_raw(v), ver))
     };
@@ -1153,8 +1169,8 @@ fn gen_dtx(seed: u64, count: usize, w: &mut NdjsonWriter) {
         if off(&mut g) {
             i = if g.gen_bool(0.4) { None } else { Some(g.gen_range(0..iron.len())) };
         }
-        let tp = if g.gen_bool(0.93) { None } else { Some(g.gen_range(0..tps.len())) };
-        let sp = if g.gen_bool(0.95) || saps.is_empty() { None } else { Some(g.gen_range(0..saps.len())) };
+        let tp = if g.gen_bool(0.9) { None } else { Some(g.gen_range(0..tps.len())) };
+        let sp = if g.gen_bool(0.93) { None } else { Some(g.gen_range(0..saps.len())) };
         let m = 34_560i64;
         let expiry = match g.gen_range(0..16) {
             0 => clamp(g.gen_range(0..UMAX)),
